@@ -21,9 +21,11 @@ TECHNIQUE = ("runtime monitor: online reference automaton of the heartbeat (peri
 LEVEL_TEXT = (
     "Every outcome string over {success, failure status, no answer within 10 s, raises CommunicationError, returns None} up to the "
     "stated length is fed call by call to the real ConnectionHeartbeat on the virtual clock (a string is run once per distinct "
-    "consumed prefix: the unconsumed tail of a script cannot influence the run); each string also with stop() at every call index "
-    "and with on_failure restarting the heartbeat. The same automaton then judges a real UDPTunnel whose ConnectionStateRequests "
-    "are answered / refused / ignored by a scripted gateway for every string up to a shorter bound. Bounded exhaustive fault "
+    "consumed prefix: the unconsumed tail of a script cannot influence the run); each string also with stop() at every call index, "
+    "with a redundant start() at every call index, with on_failure restarting the heartbeat inline, and with stop() / start() "
+    "after such an inline restart (object reuse). The same automaton then judges a real UDPTunnel whose ConnectionStateRequests "
+    "are answered / refused / ignored by a scripted gateway for every string up to a shorter bound, on a fresh tunnel object and "
+    "on one that went through user disconnect()/connect() cycles before (auto-reconnect on and off). Bounded exhaustive fault "
     "enumeration: the bound is the string length."
 )
 LEVEL_NOTE = (
@@ -135,7 +137,7 @@ class Monitor:
 # part 1: the real ConnectionHeartbeat with a scripted send_connectionstate
 
 
-def run_script(loop, script, stop_at=None, restart=False):
+def run_script(loop, script, stop_at=None, restart=False, start_at=None):
     """Run one outcome string; returns (monitor, history, stopped, leftover tasks)."""
     hist = []
     state = {"i": 0, "stopped": False}
@@ -151,9 +153,13 @@ def run_script(loop, script, stop_at=None, restart=False):
         hist.append((round(t - t0, 6), o))
         if stop_at is not None and i == stop_at:
             loop.call_soon(_stop)
+        if start_at is not None and i == start_at:
+            state["aborted"] = i
+            loop.call_soon(_start_again)
         try:
             if o == "X":
-                done.set()
+                if start_at is None or state.get("restarted_externally"):
+                    done.set()
                 return None
             if o == "S":
                 await asyncio.sleep(0.01)
@@ -167,14 +173,24 @@ def run_script(loop, script, stop_at=None, restart=False):
             await asyncio.sleep(0.01)
             raise CommunicationError("scripted")
         finally:
-            if not state["stopped"]:
-                mon.call_end(loop.time(), o)
-            else:
+            if state["stopped"]:
                 mon.in_call = False
+            elif state.get("aborted") == i and state.get("restarted_externally"):
+                pass  # this call belonged to the heartbeat that start() has just replaced
+            else:
+                mon.call_end(loop.time(), o)
+
+    def _start_again():
+        # the owner starts the heartbeat again (e.g. a fresh connection on the same object): exactly one loop may run
+        state["restarted_externally"] = True
+        hist.append((round(loop.time() - t0, 6), "start()"))
+        holder["hb"].start()
+        mon.restart(loop.time())
 
     def _stop():
         state["stopped"] = True
         state["n_at_stop"] = len(hist)
+        state["fail_at_stop"] = mon.failures_declared
         holder["hb"].stop()
         done.set()
 
@@ -187,7 +203,7 @@ def run_script(loop, script, stop_at=None, restart=False):
             hb.stop()
             hb.start()
             mon.restart(loop.time())
-        else:
+        elif start_at is None or state.get("restarted_externally"):
             done.set()
 
     async def main():
@@ -217,7 +233,7 @@ def run_script(loop, script, stop_at=None, restart=False):
     elif late and mon.problem is None:
         mon.flag("request-after-heartbeat-ended", events=late)
     mon.finish(stopped=state["stopped"])
-    if state["stopped"] and mon.failures_declared:
+    if state["stopped"] and mon.failures_declared > state.get("fail_at_stop", 0):
         mon.flag("declared-lost-after-stop")
     return mon, hist, state["stopped"], leftover
 
@@ -267,10 +283,10 @@ def represented(n):
     return sum(len(ALPHABET) ** k for k in range(n + 1))
 
 
-def judge_script(ctx, loop, script, stop_at=None, restart=False):
+def judge_script(ctx, loop, script, stop_at=None, restart=False, start_at=None):
     ctx.ev()
     try:
-        mon, hist, stopped, leftover = run_script(loop, script, stop_at, restart)
+        mon, hist, stopped, leftover = run_script(loop, script, stop_at, restart, start_at)
     except (Deadlock, LoopBudget) as exc:
         ctx.inconclusive(f"heartbeat script {script!r} stop_at={stop_at} restart={restart}: driver did not finish: {exc!r}")
         return
@@ -283,24 +299,27 @@ def judge_script(ctx, loop, script, stop_at=None, restart=False):
         ctx.count("tasks_alive_after_end_recorded", leftover)
     if stopped:
         ctx.count("stopped_runs")
-    kind = "stop" if stop_at is not None else "restart" if restart else "plain"
+    kind = ("restart+stop" if restart and stop_at is not None else "restart+start" if restart and start_at is not None
+            else "start" if start_at is not None else "stop" if stop_at is not None else "restart" if restart else "plain")
     ctx.count(f"runs_{kind}")
-    ctx.distinct((kind, script, stop_at))
+    ctx.distinct((kind, script, stop_at, start_at))
     if len(script) in (3, 5) and script.count("F") + script.count("N") >= 3:
         ctx.sample({"script": script, "variant": kind, "stop_at": stop_at, "history": hist[:14]}, cap=5)
     if mon.problem is not None:
         mech, detail = mon.problem
         ctx.violation(f"heartbeat-{mech}",
-                      {"part": "heartbeat", "script": script, "stop_at": stop_at, "restart": restart, "history": hist, "detail": detail},
+                      {"part": "heartbeat", "script": script, "stop_at": stop_at, "restart": restart, "start_at": start_at,
+                       "history": hist, "detail": detail},
                       f"ConnectionHeartbeat with outcomes {script!r} ({kind}"
-                      f"{'' if stop_at is None else ' at call ' + str(stop_at)}): {mech}; history {hist[:12]}")
+                      f"{'' if stop_at is None else ' stop() at call ' + str(stop_at)}"
+                      f"{'' if start_at is None else ' start() at call ' + str(start_at)}): {mech}; history {hist[:12]}")
 
 
 # ---------------------------------------------------------------------------
 # part 2: a real UDPTunnel, heartbeats answered by the scripted gateway
 
 
-def run_tunnel(script):
+def run_tunnel(script, reuse=0, auto=True):
     """script over o(k) / e(rror status) / s(ilent); returns (monitor, history, losses, requests, late requests)."""
     loop = new_loop()
     gw = Gateway(loop)
@@ -308,7 +327,8 @@ def run_tunnel(script):
     box = {"losses": 0}
 
     def hb_policy(n, body):
-        o = script[n] if n < len(script) else "o"
+        n -= box.get("offset", 10 ** 9)
+        o = script[n] if 0 <= n < len(script) else "o"
         return {"o": "ok", "e": ErrorCode.E_CONNECTION_ID, "s": "silent"}[o]
 
     gw.hb_policy = hb_policy
@@ -325,8 +345,8 @@ def run_tunnel(script):
         typ = info.get("type")
         if kind == "tx" and typ == "ConnectionStateRequest":
             close_silent(mon, box.get("silent_deadline", t))
-            n = gw.n_hb  # index of this request (the gateway counts it after the note)
-            o = script[n] if n < len(script) else "o"
+            n = gw.n_hb - box.get("offset", 10 ** 9)  # index of this request (the gateway counts it after the note)
+            o = script[n] if 0 <= n < len(script) else "o"
             if box.get("user_disconnect"):
                 box["late"] = box.get("late", 0) + 1
             mon.call_start(t)
@@ -359,14 +379,23 @@ def run_tunnel(script):
         xknx = XKNX()
         xknx.connection_manager.register_connection_state_changed_cb(state_cb)
         tunnel = UDPTunnel(xknx, cemi_received_callback=lambda raw: None, gateway_ip="10.0.0.2", gateway_port=3671,
-                           local_ip="10.0.0.1", auto_reconnect=True, auto_reconnect_wait=3)
+                           local_ip="10.0.0.1", auto_reconnect=auto, auto_reconnect_wait=3)
         box["t0"] = loop.time()
         await tunnel.connect()
+        for n in range(reuse):  # object reuse: the user closes and re-opens the connection on the same tunnel object
+            await asyncio.sleep(1 + 80 * (n % 2))
+            box["user_disconnect"] = True
+            await tunnel.disconnect()
+            await asyncio.sleep(2)
+            box["user_disconnect"] = False
+            await tunnel.connect()
+        script_offset = gw.n_hb
+        box["offset"] = script_offset
         mon = Monitor(loop.time())
         box["mon"] = mon
         # until the whole script was consumed and one healthy heartbeat followed
         end = loop.time() + (len(script) + 3) * (HEARTBEAT_RATE + 4 * CONNECTIONSTATE_REQUEST_TIMEOUT + 5)
-        while loop.time() < end and gw.n_hb <= len(script):
+        while loop.time() < end and gw.n_hb - script_offset <= len(script) and (auto or not box["losses"]):
             await asyncio.sleep(5)
         await asyncio.sleep(1)
         box["user_disconnect"] = True
@@ -380,7 +409,7 @@ def run_tunnel(script):
         loop.finish()
     if gw.receive_path_exceptions:
         hist.append(("receive_path_exceptions_recorded", [e[2] for e in gw.receive_path_exceptions]))
-    return mon, hist, box["losses"], gw.n_hb, box.get("late", 0)
+    return mon, hist, box["losses"], gw.n_hb - box.get("offset", 0), box.get("late", 0)
 
 
 def expected_losses(script):
@@ -397,32 +426,37 @@ def expected_losses(script):
     return losses
 
 
-def judge_tunnel(ctx, script):
+def judge_tunnel(ctx, script, reuse=0, auto=True):
     ctx.ev()
     try:
-        mon, hist, losses, n_hb, late = run_tunnel(script)
+        mon, hist, losses, n_hb, late = run_tunnel(script, reuse, auto)
     except (Deadlock, LoopBudget) as exc:
         ctx.inconclusive(f"tunnel heartbeat script {script!r}: driver did not finish: {exc!r}")
         return
     ctx.count("tunnel_runs")
+    if reuse:
+        ctx.count("tunnel_runs_reused_object" if auto else "tunnel_runs_reused_object_noauto")
     if hist and hist[-1][0] == "receive_path_exceptions_recorded":
         ctx.count("receive_path_exceptions_recorded", len(hist[-1][1]))
     ctx.count("tunnel_connectionstate_requests", n_hb)
     ctx.count("tunnel_losses_declared", losses)
-    ctx.distinct(("tunnel", script))
+    ctx.distinct(("tunnel", script, reuse, auto))
     if script in ("ssss", "eseo", "sseso"):
         ctx.sample({"tunnel_script": script, "history": hist[:20]}, cap=8)
     problem = mon.problem
-    if problem is None and losses != expected_losses(script):
-        problem = ("loss-count-differs", {"expected": expected_losses(script), "observed": losses})
-    if problem is None and n_hb <= len(script):
+    want = expected_losses(script) if auto else min(1, expected_losses(script))
+    if problem is None and losses != want:
+        problem = ("loss-count-differs", {"expected": want, "observed": losses})
+    if problem is None and n_hb <= len(script) and (auto or not losses):
         problem = ("stopped-early", {"requests": n_hb})
     if problem is None and late:
         problem = ("request-after-user-disconnect", {"late_requests": late})
     if problem is not None:
         mech, detail = problem
-        ctx.violation(f"tunnel-heartbeat-{mech}", {"part": "tunnel", "script": script, "history": hist, "detail": detail},
-                      f"UDPTunnel with heartbeat answers {script!r} (o=ok e=error status s=silent): {mech}; history {hist[:14]}")
+        ctx.violation(f"tunnel-heartbeat-{mech}", {"part": "tunnel", "script": script, "reuse": reuse, "auto": auto,
+                                                    "history": hist, "detail": detail},
+                      f"UDPTunnel (auto_reconnect={auto}, {reuse} disconnect()/connect() cycles on the same object before) with "
+                      f"heartbeat answers {script!r} (o=ok e=error status s=silent): {mech}; history {hist[-14:]}")
 
 
 # ---------------------------------------------------------------------------
@@ -437,7 +471,8 @@ def run(ctx):
                 f"length <= {n_stop} also with stop() at every call index, each of length <= {n_restart} that reaches on_failure also "
                 f"with on_failure restarting the heartbeat; real UDPTunnel with gateway answers over {{ok,error,silent}} of length <= "
                 f"{n_tunnel}; distinct = (variant, string, stop index)")
-    ctx.require("connectionstate_calls", "on_failure_calls", "runs_plain", "runs_stop", "runs_restart", "tunnel_runs",
+    ctx.require("connectionstate_calls", "on_failure_calls", "runs_plain", "runs_stop", "runs_restart", "runs_restart+stop", "runs_restart+start", "runs_start",
+                "tunnel_runs_reused_object", "tunnel_runs_reused_object_noauto", "tunnel_runs",
                 "tunnel_losses_declared", "stopped_runs")
     loop = new_loop()
     idx = 0
@@ -463,6 +498,15 @@ def run(ctx):
                 # the string ends in a declared loss: append every continuation of length <= 2 after the restart
                 for tail in ("", "S", "F", "X", "R", "FFFF", "NS", "FFFN", "SFFFF"):
                     judge_script(ctx, loop, script + tail, restart=True)
+                # object reuse: after on_failure restarted the heartbeat inline, stop() must still end it and a
+                # further start() must leave exactly one loop
+                for tail in ("SS", "FS", "NSS"):
+                    for k in range(len(script), len(script) + len(tail) + 1):
+                        judge_script(ctx, loop, script + tail, restart=True, stop_at=k)
+                        judge_script(ctx, loop, script + tail + "S", restart=True, start_at=k)
+            if len(script) <= n_stop:
+                for k in range(len(script) + 1):  # redundant start() while running
+                    judge_script(ctx, loop, script + "SS", start_at=k)
     finally:
         leaked = loop.finish()
         if leaked:
@@ -477,19 +521,22 @@ def run(ctx):
             if not ctx.mine(idx):
                 continue
             judge_tunnel(ctx, "".join(tup))
+            judge_tunnel(ctx, "".join(tup), reuse=1 + (idx % 2))  # the same tunnel object after disconnect() + connect()
+            if length <= 4:
+                judge_tunnel(ctx, "".join(tup), reuse=1, auto=False)
     ctx.exhaustive = True
 
 
 def replay(ctx, witness):
     ctx.rule = "replay of one recorded script"
     if witness.get("part") == "tunnel":
-        judge_tunnel(ctx, witness["script"])
+        judge_tunnel(ctx, witness["script"], witness.get("reuse", 0), witness.get("auto", True))
         ctx.distinct("replay")
         ctx.distinct("replay2")
         return
     loop = new_loop()
     try:
-        judge_script(ctx, loop, witness["script"], witness.get("stop_at"), bool(witness.get("restart")))
+        judge_script(ctx, loop, witness["script"], witness.get("stop_at"), bool(witness.get("restart")), witness.get("start_at"))
     finally:
         loop.finish()
     ctx.distinct("replay")
